@@ -301,7 +301,7 @@ func c06length(a *algo, stratum int, j int64, r *rand.Rand) (l uint64, unknown b
 func TestC06(t *testing.T) {
 	m := mon.New(t, "C06")
 	defer m.Done()
-	m.Rule("history = NewXOF(L or OutputLengthUnknown, key) ; Write* (message 0..300 bytes in 1..3 chunks) ; then Reads on up to 3 readers (original + Clones taken in write mode or at arbitrary read positions, each driven with its own chunk sizes 0..200, {Out-1,Out,Out+1,2Out±1,4Out±1} and, for long outputs, 1000..8000) until every reader has delivered L bytes and then reported io.EOF twice (unknown length: until a target beyond 2^16 bytes for BLAKE2s / 70000 resp. 300 KiB for BLAKE2b); Write-after-Read probed for the documented panic; Reset then a second message. L by stratum: unknown short / unknown long / boundary list {1,31..33,63..65,127..129,255,256,65534, b2b: 65535,65536,70000} / <=300 / <=5000 / large / partial last node / clone+reset focus. Caller memory: all Writes go through one reused buffer scribbled (0xA5) after each call, the key slice is scribbled after NewXOF and after Reset, the last 8 filled Read buffers are re-verified after every later Read. Oracle = position model (L, pos) over the BLAKE2X executable spec (h/ref/blake2: root hash with XOF length, node i with node offset i and digest length min(Out, L-i*Out)). Concurrency stream (the only stream in the -race build): rounds of 4..8 barrier-started goroutines, each with its OWN XOF (keyed/unkeyed, known/unknown length, a Clone made and read inside the goroutine), expected output precomputed single-threaded from the reference, judged after join; every fourth round under GOMAXPROCS(1); interleavings are scheduler-chosen. One evaluation = one history or one goroutine job; distinct = (alg, length class, keyed, #readers, reset).")
+	m.Rule("history = NewXOF(L or OutputLengthUnknown, key) ; Write* (message 0..300 bytes in 1..3 chunks) ; then Reads on up to 3 readers (original + Clones taken in write mode or at arbitrary read positions, each driven with its own chunk sizes 0..200, {Out-1,Out,Out+1,2Out±1,4Out±1} and, for long outputs, 1000..8000) until every reader has delivered L bytes and then reported io.EOF twice (unknown length: until a target beyond 2^16 bytes for BLAKE2s / 70000 resp. 300 KiB for BLAKE2b); Write-after-Read probed for the documented panic (also when the first Read is zero-length: Read(nil)/Read([]byte{}) as the very first Read of every eighth history, then Write must panic); Reset then a second message. L by stratum: unknown short / unknown long / boundary list {1,31..33,63..65,127..129,255,256,65534, b2b: 65535,65536,70000} / <=300 / <=5000 / large / partial last node / clone+reset focus. Caller memory: all Writes go through one reused buffer scribbled (0xA5) after each call, the key slice is scribbled after NewXOF and after Reset, the last 8 filled Read buffers are re-verified after every later Read. Oracle = position model (L, pos) over the BLAKE2X executable spec (h/ref/blake2: root hash with XOF length, node i with node offset i and digest length min(Out, L-i*Out)). Concurrency stream (the only stream in the -race build): rounds of 4..8 barrier-started goroutines, each with its OWN XOF (keyed/unkeyed, known/unknown length, a Clone made and read inside the goroutine), expected output precomputed single-threaded from the reference, judged after join; every fourth round under GOMAXPROCS(1); interleavings are scheduler-chosen. One evaluation = one history or one goroutine job; distinct = (alg, length class, keyed, #readers, reset).")
 	m.Assume("h/ref/blake2's BLAKE2X layer is validated on the 512 official BLAKE2Xb/BLAKE2Xs known-answer vectors (lengths 1..256, keyed) and the two unknown-length vectors; its compression function is cross-checked against python hashlib in the unit test and in C05. No independent BLAKE2X implementation exists in the image (hashlib rejects fanout=0/depth=0), so node offsets > 3 and L > 256 rest on the spec text alone.")
 	if err := refb2.SelfTest(); err != nil {
 		m.Inconclusive("reference self-test failed: " + err.Error())
@@ -390,6 +390,26 @@ func TestC06(t *testing.T) {
 		resetMid := wantReset && r.IntN(2) == 0 && stratum != 1 // long unknown-length histories always run to their target first
 		resetAt := uint64(r.Int64N(int64(target) + 1))
 		maxReaders := 1
+		if j%8 == 1 && !cloneInWriteMode {
+			// a zero-length Read is a Read: the first Read of this history is
+			// Read(nil) / Read([]byte{}), after which Write must already panic
+			// (and, if it does not, the absorbed byte shows in every later Read)
+			var zn int
+			var zerr error
+			if j%16 == 1 {
+				zn, zerr = orig.x.Read(nil)
+			} else {
+				zn, zerr = orig.x.Read([]byte{})
+			}
+			orig.trace = append(orig.trace, fmt.Sprintf("Read(zero-length)@0=%d,%v", zn, zerr))
+			if zn != 0 || zerr != nil {
+				m.Violation("xof-zero-length-first-read-result:"+a.name, h.witness(orig, map[string]any{"n": zn, "err": fmt.Sprint(zerr)}))
+				h.bad = true
+			} else {
+				h.writeMustPanic(orig, orig.x, "after-zero-length-first-read")
+				m.Count("zero_length_first_read_probes", 1)
+			}
+		}
 		for steps := 0; steps < 200000 && !h.bad; steps++ {
 			// pick a live reader
 			var live []*c06reader
@@ -480,6 +500,7 @@ func TestC06(t *testing.T) {
 	m.Gate("unknown_length_crossed_300KiB:blake2b", q(20, 360), "BLAKE2Xb unknown-length output read beyond 300 KiB")
 	m.Gate("clones_in_write_mode", q(600, 12000), "Clone before the first Read, both then absorb different tails")
 	m.Gate("clones_in_read_mode", q(800, 19200), "Clone at a read position, original and clone driven with different chunkings")
+	m.Gate("zero_length_first_read_probes", q(500, 10000), "Write probed right after a zero-length first Read")
 	m.Gate("write_after_read_panics", q(6000, 120000), "documented panic of Write after Read observed")
 	m.Gate("write_operands_scribbled", q(6000, 120000), "every Write goes through one reused buffer that is overwritten with 0xA5 right after Write returns")
 	m.Gate("keys_scribbled_after_constructor", q(3000, 60000), "caller's key slice overwritten after NewXOF returned (and again after Reset)")
